@@ -60,10 +60,6 @@ import IbicusModel.Props.C04Gen
 -- tier A: regenerated kernels = model
 #print axioms Props.C04.isimip_flags_are_generated
 #print axioms Props.C04.isimip_unbounded_flags_generated
-#print axioms Lemmas.GenConfig.has_lower_threshold
-#print axioms Lemmas.GenConfig.has_lower_bound
-#print axioms Lemmas.GenConfig.has_upper_threshold
-#print axioms Lemmas.GenConfig.has_upper_bound
 #print axioms Lemmas.GenDebiasers.ls_apply_on_window
 #print axioms Lemmas.GenDebiasers.dc_apply_on_within_year_window
 #print axioms Lemmas.GenDebiasers.linearScalingS_additive
